@@ -368,6 +368,21 @@ func (c *Ctx) checkGlobals(ref globalsSnapshot, when string) {
 	}
 }
 
+// Mech records a finding about an internal mechanism (recoding digit ranges, table entries)
+// observed through the optional in-package shim. It is a diagnostic, not a verdict: the
+// property constrains the results of the multiplications, and a refactoring may change the
+// conventions of the recodings and tables (digit range, which multiples a table holds) while
+// every result stays exact. Every such finding is tallied, and reported once per kind as an
+// inconclusive note so that it is looked at; wrong results are decided by the output-level
+// comparison with the model, which every mechanism-level mutant and seed also trips (§9.4).
+func (c *Ctx) Mech(kind string, det map[string]any) {
+	key := "mechanism diagnostic (shim; recorded, not a verdict): " + kind
+	if c.Res.Tallies[key] == 0 {
+		c.Inconclusive(key + " - first instance: " + fmt.Sprint(det))
+	}
+	c.Tally(key)
+}
+
 // rawWrite runs f, which must consist of the harness's own stores into previously returned
 // values and of nothing else (no library call), between two package-globals digests. Any
 // difference is exact: the returned value shares memory with package-level state.
